@@ -382,7 +382,41 @@ def single_lit(rng, ctx):
     return v if rng.random() < 0.6 else -v
 
 
+def word_n(rng, ctx):
+    return rng.choice([0, 1, 2, 3, 3, 4, 5, -1])
+
+
+def word_k(rng, ctx):
+    return rng.choice([0, 1, 2, 2, 3, -1])
+
+
+def word_type(rng, ctx):
+    return rng.choice(["combinations", "combinations_with_replacement", "permutations", "words"] * 3 + ["combination", ""])
+
+
+def word_pattern(rng, ctx):
+    n, k = max(ctx.get("n", 0), 0), max(ctx.get("k", 0), 0)
+    x = rng.random()
+    if x < 0.2:
+        return []
+    if x < 0.3:
+        return [gen_value(rng, {"k": "opt", "e": {"k": "int"}}) for _ in range(rng.choice([1, 2, 3]))]
+    return sorted(rng.randint(1, n + 1) for _ in range(k)) if rng.random() < 0.6 else [rng.randint(0, n + 1) for _ in range(k)]
+
+
+def word_lit(rng, ctx):
+    nv = ctx.get("formula", 0)
+    v = rng.randint(nv - 1, nv + 12)
+    return v if rng.random() < 0.6 else -v
+
+
 HINTS = {
+    ("WordOfIndicesVariables", "n"): word_n,
+    ("WordOfIndicesVariables", "k"): word_k,
+    ("WordOfIndicesVariables", "wordtype"): word_type,
+    ("WordOfIndicesVariables", "pattern"): word_pattern,
+    ("WordOfIndicesVariables", "index"): lambda rng, ctx: tuple(word_pattern(rng, ctx)),   # a dictionary key: hashable
+    ("WordOfIndicesVariables", "lit"): word_lit,
     ("DiGraphEdgesVariables", "lit"): wrap_lit,
     ("DiGraphEdgesVariables", "index"): wrap_index,
     ("DiGraphEdgesVariables", "pattern"): wrap_pattern,
@@ -623,6 +657,8 @@ def make_call(rng, fn, manifest):
                 v = gen_value(rng, ty)
                 if v is None and not defaults_of(owner, meth).get(p, False):
                     v = "e[{},{}]"
+                if v is None and p != params[-1][0]:
+                    v = "p_{}"            # only a trailing argument can be left to its default
                 if v is not None:
                     v = ProbeStr(v)
                 probes[p] = v
